@@ -204,10 +204,13 @@ func valParsePure(s string) (interface{}, bool) {
 	if strings.HasPrefix(s, "decr:") {
 		s = "dec:" + s[5:]
 	}
-	return valParse(s)
+	return valParseWith(s, true)
 }
 
-func valParse(s string) (interface{}, bool) {
+// valParse: the value of a token as the implementation leg builds it (decimals through the type's own methods)
+func valParse(s string) (interface{}, bool) { return valParseWith(s, false) }
+
+func valParseWith(s string, pure bool) (interface{}, bool) {
 	if s == "null" {
 		return nil, true
 	}
@@ -260,6 +263,10 @@ func valParse(s string) (interface{}, bool) {
 		}
 		d, _ := asetypes.NewDecimal(0, 0)
 		d.Precision, d.Scale = int(pr), int(sc)
+		if pure {
+			decInstallPure(d, i)
+			return d, true
+		}
 		decInstall(d, i)
 		if p[0] == "decr" && pr >= 1 && pr <= 38 {
 			// the decimal object has been through a REJECTED SetString since it got its value (a number
@@ -645,10 +652,10 @@ func valValueInDomain(t asetypes.DataType, l int64, v interface{}) bool {
 		}
 		return true
 	case *asetypes.Decimal:
-		if x.String() == "<nil>" {
+		i := decIntPure(x)
+		if i == nil {
 			return false
 		}
-		i := x.Int()
 		switch t {
 		case asetypes.MONEY, asetypes.SHORTMONEY, asetypes.MONEYN:
 			if l == 4 {
@@ -764,7 +771,7 @@ func valOracle(line, out string) string {
 		if !strings.HasPrefix(out, "ok ") {
 			return "encoding a value of the type's domain and decoding the produced bytes yields a value"
 		}
-		w, okw := valParse(out[3:])
+		w, okw := valParsePure(out[3:])
 		if !okw {
 			return "decoding yields a value of the Go type"
 		}
@@ -775,7 +782,7 @@ func valOracle(line, out string) string {
 			}
 		case cmpDecimal:
 			d, okd := w.(*asetypes.Decimal)
-			if !okd || d.String() == "<nil>" || d.Int().Cmp(v.(*asetypes.Decimal).Int()) != 0 {
+			if !okd || decIntPure(d) == nil || decIntPure(d).Cmp(decIntPure(v.(*asetypes.Decimal))) != 0 {
 				return "encoding the value and decoding the produced bytes yields the same value (money, decimal/numeric)"
 			}
 		default:
